@@ -15,7 +15,9 @@ from vlib.core import Outcome, Sub
 
 PROPERTY = "C08"
 RULE = ("case = family x boundary flag x d in 1..3 x domain [a,b] (ends from small integers, dyadic and non-dyadic "
-        "floats) x 1..3 areas visited with the same grid object; an area = per dimension a path of 0..3 dyadic "
+        "floats; in half of the cases the whole domain, offset included, is multiplied by a unit s from {2^-30, 1e-9, "
+        "1e-7, 1e-6, 1e-3, 1e3, 2^20}, the same or a different one per dimension, e.g. [4e-7,7e-7]) x 1..3 areas "
+        "visited with the same grid object; an area = per dimension a path of 0..5 dyadic "
         "bisections of [a_d,b_d] (whole interval / touching a / touching b / interior) + a level 0..4 (Leja, Gauss "
         "0..3), levels drawn independently per dimension. Sub-check 'nodal': Trapezoidal, Simpson, Clenshaw-Curtis, "
         "Leja (boundary=True), Gauss-Legendre, both integrators; 'hier': Lagrange p 1..5 (boundary=True), B-spline p "
@@ -47,6 +49,8 @@ ASSUMPTIONS = [
     "level vectors are lists of ints >= 0 (extend-split passes level - lmin >= 0), a/b/start/end are float numpy "
     "arrays, sub-box ends are produced by (s+e)/2 like Grid1d.get_mid_point",
     "GaussLegendreGrid is used with normalize=False (Grid_Tutorial)",
+    "every tolerance of the harness is relative (to the box volume, to |start|+|end| of the dimension); 'on the global "
+    "boundary' is known exactly from the bisection path, never from a comparison of floats",
 ]
 
 NODAL = ("trapezoidal", "simpson", "cc", "leja", "gauss")
@@ -56,12 +60,21 @@ HIER = ("lagrange", "bspline")
 # observed maxima on the unchanged tree (60 000 thorough cases): exactness nodal 2.4e-13 (boxes of width 0.0125 at
 # x=10: the conditioning of t=(x-mid)/half), Leja 1.4e-13, hierarchical 1.7e-13; sum of weights 8e-16 (hierarchical
 # 3.6e-14, linearity 5.6e-14); unit function vs weight 0.  A real defect (wrong weight, wrong knot, wrong area) shows at >= 1e-4.
-TOL_EXACT = {"trapezoidal": 5e-11, "simpson": 5e-11, "cc": 5e-11, "gauss": 5e-11, "leja": 1e-9,
-             "lagrange": 1e-10, "bspline": 1e-10}
+# with bisection depth up to 5 and domains in unusual units (18 000 further thorough cases): nodal 7.9e-13, hier. 8e-13
+TOL_EXACT = {"trapezoidal": 1e-10, "simpson": 1e-10, "cc": 1e-10, "gauss": 1e-10, "leja": 1e-9,
+             "lagrange": 2e-10, "bspline": 2e-10}
 TOL_WSUM = {"trapezoidal": 1e-12, "simpson": 1e-12, "cc": 1e-12, "gauss": 1e-12, "leja": 1e-10}
 TOL_UNIT = 1e-13        # integrate(unit function j) == weight j   (nodal families, one product, no summation)
-TOL_INSIDE = 1e-12      # relative to (|start|+|end|+1)
-TOL_MODEL = 1e-13       # trapezoidal points/weights against the composite trapezoidal model
+TOL_INSIDE = 1e-12      # relative to (|start|+|end|) of the dimension
+TOL_MODEL = 1e-13       # trapezoidal points (relative to |start|+|end|) / weights (relative to the volume) against the model
+# No tolerance of the harness is absolute: domains are also generated in unusual units (scaled by 2^-30 ... 2^20).
+# The rounding error of t=(x-mid)/half grows like eps*(|start|+|end|)/length; the exactness tolerances are widened by
+# that condition number / 1000 when it exceeds 1000 (deep bisections of a narrow domain far from the origin).
+
+
+def exact_tol(fam, area):
+    cond = float(np.max((np.abs(area.start) + np.abs(area.end)) / area.length))
+    return TOL_EXACT[fam] * max(1.0, cond / 1000.0)
 
 
 # ----------------------------------------------------------------------------------------------------------------
@@ -269,7 +282,7 @@ def check_area(out, sub, case, grid, area, rng, info, tag, limits):
                     return 1.0 + float(np.dot(c, (np.asarray(coordinates, dtype=float) - area.mid) / area.half))
 
             r0 = np.asarray(grid.integrate(Linear(), lv, area.start.copy(), area.end.copy()), dtype=float).reshape(-1)
-            if len(r0) != 1 or abs(r0[0] - area.volume) > TOL_EXACT[fam] * area.volume * (1 + d):
+            if len(r0) != 1 or abs(r0[0] - area.volume) > exact_tol(fam, area) * area.volume * (1 + d):
                 out.bad("%s/integrate/%s-without-previous-setCurrentArea" % (sub, fam),
                         "%s: integrate(1 + linear) called right after the previous area = %s, volume %.17g; start=%s end=%s level=%s"
                         % (tag, r0.tolist(), area.volume, area.start.tolist(), area.end.tolist(), lv))
@@ -298,7 +311,7 @@ def check_area(out, sub, case, grid, area, rng, info, tag, limits):
 
     # --- clause 2: inside the closed sub-box ------------------------------------------------------------------
     if npts:
-        tol = TOL_INSIDE * (np.abs(area.start) + np.abs(area.end) + 1.0)
+        tol = TOL_INSIDE * (np.abs(area.start) + np.abs(area.end))
         below = pts < area.start - tol
         above = pts > area.end + tol
         if below.any() or above.any():
@@ -365,7 +378,7 @@ def check_area(out, sub, case, grid, area, rng, info, tag, limits):
     if m and check_exact:
         err = np.abs(res[:m] - exact) / area.volume
         info["max_exact_err_" + fam] = max(info.get("max_exact_err_" + fam, 0.0), float(err.max()))
-        badj = np.nonzero(err > TOL_EXACT[fam])[0]
+        badj = np.nonzero(err > exact_tol(fam, area))[0]
         if len(badj):
             j = int(badj[np.argmin(K[badj].max(axis=1))])     # report the lowest failing degree
             lowest = int(K[badj].max(axis=1).min())
@@ -385,7 +398,7 @@ def check_area(out, sub, case, grid, area, rng, info, tag, limits):
             if mode == "full":
                 err = abs(float(np.sum(W)) - area.volume) / area.volume
                 info["max_wsum_err"] = max(info.get("max_wsum_err", 0.0), err)
-                if err > TOL_EXACT[fam]:
+                if err > exact_tol(fam, area):
                     out.bad("%s/wsum/%s" % (sub, fam), "%s: effective nodal weights sum to %.17g, volume %.17g; start=%s end=%s level=%s"
                             % (tag, float(np.sum(W)), area.volume, area.start.tolist(), area.end.tolist(), lv))
             if m:
@@ -394,7 +407,7 @@ def check_area(out, sub, case, grid, area, rng, info, tag, limits):
                 lin = W @ vals
                 err = float(np.max(np.abs(lin - res[:m]))) / area.volume
                 info["max_linearity_err"] = max(info.get("max_linearity_err", 0.0), err)
-                if err > TOL_EXACT[fam]:
+                if err > exact_tol(fam, area):
                     out.bad("%s/integrate/%s-not-linear-in-nodal-values" % (sub, fam),
                             "%s: integrate(q) differs from sum_j integrate(e_j) q(x_j) by %.3g of the volume" % (tag, err))
     # scalar integrand (the usual call): one random combination of the polynomials
@@ -418,7 +431,7 @@ def check_area(out, sub, case, grid, area, rng, info, tag, limits):
             out.bad("%s/integrate/%s-output-shape" % (sub, fam), "%s: scalar integrand returned shape %s" % (tag, r1.shape))
         else:
             err = abs(r1[0] - want) / (area.volume * max(1.0, float(np.sum(np.abs(c)))))
-            if err > TOL_EXACT[fam]:
+            if err > exact_tol(fam, area):
                 out.bad("%s/exactness/%s-%s-scalar-integrand" % (sub, fam, mode),
                         "%s: random combination of the test polynomials: integrate=%.17g exact=%.17g" % (tag, r1[0], want))
     return points, weights
@@ -435,7 +448,7 @@ def compare_with_trapezoid_model(out, sub, case, area, points, weights, boundary
         dr = (not boundary) and area.touch_b[k]
         x, w = trapezoid_model_1d(area.start[k], area.end[k], area.level[k], dl, dr)
         ox = np.unique(obs[:, k]) if len(obs) else np.zeros(0)
-        scale = abs(area.start[k]) + abs(area.end[k]) + 1.0
+        scale = abs(area.start[k]) + abs(area.end[k])
         same = len(ox) == len(x) and (len(x) == 0 or np.max(np.abs(ox - x)) <= TOL_MODEL * scale)
         if not same and len(obs):
             ga, gb = case["a"][k], case["b"][k]
@@ -522,7 +535,7 @@ def run_generic(case, sub, grid_factory=make_grid):
                     # ((s+e)/2 versus linspace), so compare with TOL_MODEL instead of bitwise
                     keep.sort()
                     off.sort()
-                    scale = np.concatenate([np.abs(area.start) + np.abs(area.end) + 1.0, [area.volume]])
+                    scale = np.concatenate([np.abs(area.start) + np.abs(area.end), [area.volume]])
                     if len(keep) != len(off):
                         out.bad("%s/on-off/point-sets-differ" % sub, "%s: %d points with boundary=False, %d boundary=True points "
                                 "off the global boundary; start=%s end=%s level=%s"
@@ -538,6 +551,12 @@ def run_generic(case, sub, grid_factory=make_grid):
         # classes / non-triviality
         where = "whole-domain" if not area.proper else ("touching-boundary" if area.touches else "interior")
         out.cls(where)
+        for k in range(d):
+            if ((not area.touch_a[k] and abs(area.start[k] - case["a"][k]) <= NEAR)
+                    or (not area.touch_b[k] and abs(area.end[k] - case["b"][k]) <= NEAR)):
+                out.cls("sub-box-edge-within-1e-8-of-border-but-not-on-it")
+        if max(len(pth) for pth in spec["path"]) >= 4:
+            out.cls("bisection-depth>=4")
         if 0 in area.level:
             out.cls("level0")
         if max(area.level) >= 4:
@@ -551,6 +570,10 @@ def run_generic(case, sub, grid_factory=make_grid):
     if case.get("old_integrator"):
         out.cls("old-integrator")
     out.cls("d=%d" % d, "areas=%d" % len(case["areas"]))
+    for sc in sorted(set(case.get("scale", [1.0] * d))):
+        out.cls("domain-scale=%.3g" % sc)
+    if len(set(case.get("scale", [1.0]))) > 1:
+        out.cls("domain-scale-differs-per-dimension")
     out.nontrivial = nt
     info["max_dim"] = d
     out.info = info
@@ -572,12 +595,26 @@ def run_trap_boundary(case):
 # ----------------------------------------------------------------------------------------------------------------
 # generators
 # ----------------------------------------------------------------------------------------------------------------
-A_CHOICES = [0.0, -1.0, 2.0, 0.5, -0.3, 1.7, 10.0, -2.5]
+A_CHOICES = [0.0, -1.0, 2.0, 0.5, -0.3, 1.7, 10.0, -2.5, 4.0]
 LEN_CHOICES = [1.0, 2.0, 3.0, 0.5, 0.7, 0.1, 6.25, 1.3]
+# units of the domain: [a,b] (offset included) is multiplied by s, e.g. [4,7]*1e-7 = visible light in metres
+SCALES = [2.0 ** -30, 1e-9, 1e-7, 1e-6, 1e-3, 1e3, 2.0 ** 20]
+NEAR = 1e-8         # class counter: a sub-box edge closer than this (absolutely) to a domain border without lying on it
 
 
 def _path():
-    return st.sampled_from([0, 1, 1, 2, 2, 3]).flatmap(lambda n: st.lists(st.integers(0, 1), min_size=n, max_size=n))
+    return st.sampled_from([0, 1, 1, 2, 2, 3, 3, 4, 5]).flatmap(
+        lambda n: st.lists(st.integers(0, 1), min_size=n, max_size=n))
+
+
+def _scales(d):
+    """per dimension unit: half of the cases ordinary units, a quarter one unusual unit for all dimensions, a quarter
+    independent units per dimension"""
+    one = st.sampled_from(SCALES)
+    return st.sampled_from(["unit", "unit", "same", "mixed"]).flatmap(
+        lambda kind: st.just([1.0] * d) if kind == "unit"
+        else one.map(lambda x: [x] * d) if kind == "same"
+        else st.lists(st.sampled_from(SCALES + [1.0]), min_size=d, max_size=d))
 
 
 
@@ -594,8 +631,11 @@ def case_strategy(families, tier, boundary_choices, point_cap):
     def s(draw):
         fam = draw(st.sampled_from(families))
         d = draw(st.sampled_from([1, 2, 2, 3]))
+        scale = draw(_scales(d))
         a = [draw(st.sampled_from(A_CHOICES)) for _ in range(d)]
         b = [a[k] + draw(st.sampled_from(LEN_CHOICES)) for k in range(d)]
+        a = [a[k] * scale[k] for k in range(d)]
+        b = [b[k] * scale[k] for k in range(d)]
         p = 0
         if fam == "lagrange":
             p = draw(st.integers(1, 5))
@@ -618,7 +658,7 @@ def case_strategy(families, tier, boundary_choices, point_cap):
             else:
                 lv = _cap_levels(lv, lambda l: 2 ** l + 1, point_cap)
             areas.append(dict(path=path, lv=lv))
-        case = dict(family=fam, p=p, boundary=boundary, d=d, a=a, b=b, areas=areas,
+        case = dict(family=fam, p=p, boundary=boundary, d=d, a=a, b=b, scale=scale, areas=areas,
                     rng=draw(st.integers(0, 2 ** 31 - 1)))
         if fam in NODAL and fam != "gauss":
             case["old_integrator"] = draw(st.sampled_from([False, False, False, True]))
